@@ -36,7 +36,7 @@ def judge(chk, trace, mm):
     for m in mm:
         cls = m[2]
         chk.classify(cls if cls != "unexplained" else f"unexplained:{m[3]['port']}",
-                     f"port read {m[3]} ({cls})", run_of(trace, m[1]), extra=m)
+                     f"port read {m[3]} ({cls})", lambda m=m: run_of(trace, m[1]), extra=m)
 
 
 def run(tier, seed):
